@@ -128,6 +128,8 @@ class Sim:
     def _task_main(self, t):
         t.sem.acquire()
         lp = self.line_preempt if t.name != "main" else None
+        if lp is not None and lp.only is not None and lp.only not in t.name:
+            lp = None
         try:
             if self.aborted is None:
                 self.current = t
@@ -364,7 +366,11 @@ class Sim:
                 1 + self.tape.choice(horizon, "pctpoint") for _ in range(d))
         main = self.spawn("main", main_fn, *args, **kwargs)
         self._run(main)
-        finished = self._done_evt.wait(self.wall_timeout)
+        try:
+            finished = self._done_evt.wait(self.wall_timeout)
+        finally:
+            if self.line_preempt is not None:
+                self.line_preempt.close()
         if not finished:
             self._abort(HarnessError("wall-clock timeout inside simulated run"))
             self._release_all()
